@@ -18,6 +18,7 @@ CONSTANTS
   CanonKinds = TRUE
   PoolAny = TRUE
   MaxPause = 0
+  MaxDown = 0
 INVARIANTS NoViolation DoneMsgHasDoneFrags QueuedMsgsInUse LiveFragPeer
 VIEW view
 CHECK_DEADLOCK FALSE
